@@ -18,7 +18,7 @@ package fstxn
 // blocks of the logical disk (read through the recovered log, block start+i
 // for the i-th block), bit for bit.
 //@ specfunc lbit(b uint64, k uint64) = lview[b][k/8] & (uint8(1) << (k%8)) != 0
-//@ spec readBitmap
+//@ spec readBitmap(log, start, len)
 //@   props C01 C10 C15 C11 C05
 //@   requires log != nil && len <= 32768 && start < 1048576 && start + len <= dsksize
 //@   requires [R4-recovered] recovered @C01
@@ -29,7 +29,7 @@ package fstxn
 //@   loop 0 invariant [bytes] forall k uint64 :: k < 4096 * i ==> bitmap[k] == lview[start + k/4096][k%4096]
 //@   loop 0 decreases len - i
 
-//@ spec MkFsState
+//@ spec MkFsState(super, log)
 //@   props C01 C10 C15 C05
 //@   requires superInv(super) && acceptedSize(dsksize) && log != nil
 //@   requires [R4-recovered] recovered @C01
@@ -43,7 +43,7 @@ package fstxn
 //@   ensures [G4-ialloc] forall n uint64 :: n < 32768 ==> (abits[base(result.Ialloc)][n] <==> lbit(super.BitmapInodeStart(), n)) @C15 @C10 @C01 @C05
 //@   ensures [G4-sizes] asize[base(result.Balloc)] == super.NBlockBitmap * 32768 && asize[base(result.Ialloc)] == 32768 @C15
 
-//@ spec Begin
+//@ spec Begin(fsstate)
 //@   props C01 C03 C06 C09 C11
 //@   requires fsInv(fsstate)
 //@   requires [L2-nolocks] noLocks() @C03 @C06
@@ -57,7 +57,7 @@ package fstxn
 //@   ensures fresh(result) && opOpen(result) && result.Fs == fsstate && cphase == 0
 //@   ensures [F5-empty] len(result.Atxn.allocInums) == 0 && len(result.Atxn.freeInums) == 0 && len(result.Atxn.allocBnums) == 0 && len(result.Atxn.freeBnums) == 0 @C05 @C09
 
-//@ spec (*FsTxn).releaseInodes
+//@ spec (*FsTxn).releaseInodes(op)
 //@   assume
 //@   requires opInv(op)
 //@   requires [L2-clean] forall i uint64 :: held[i] ==> !dirtyinum[i] @C03 @C09 @C10
@@ -65,7 +65,7 @@ package fstxn
 //@   modifies held, map[uint64]*inode.Inode
 //@   ensures noLocks() && opShape(op)
 
-//@ spec (*FsTxn).invalidateInodes
+//@ spec (*FsTxn).invalidateInodes(op)
 //@   assume
 //@   requires opInv(op)
 //@   allocates buf.Buf
@@ -74,7 +74,7 @@ package fstxn
 //@   ensures forall i uint64 :: !(held[i] && wroteinum[i]) ==> dirtyinum[i] == old(dirtyinum)[i]
 
 // C03-L2: a lock is given up early only by the lookup that took it and found the inode unusable.
-//@ spec (*FsTxn).ReleaseInode
+//@ spec (*FsTxn).ReleaseInode(op, ip)
 //@   props C03 C14 C10
 //@   requires opInv(op) && ip != nil
 //@   requires [isheld] held[ip.Inum] @C14
@@ -83,7 +83,7 @@ package fstxn
 //@   ensures held == store(old(held), ip.Inum, false) && opInv(op)
 //@   ensures forall j uint64 :: j != ip.Inum ==> op.inodes[j] == old(op.inodes[j])
 
-//@ spec (*FsTxn).LockInode
+//@ spec (*FsTxn).LockInode(op, inum)
 //@   props C06 C14 C11
 //@   requires opInv(op)
 //@   requires [D1-order] canLock(inum) @C06
@@ -93,7 +93,7 @@ package fstxn
 //@   ensures result.Obj.tag == 0 || istype(result.Obj, *inode.Inode)
 //@   ensures result.Obj.tag != 0 ==> ifaceptr(result.Obj, inode.Inode) != nil && ifaceptr(result.Obj, inode.Inode).Inum == inum && inodeInv(ifaceptr(result.Obj, inode.Inode))
 
-//@ spec (*FsTxn).GetInodeLocked
+//@ spec (*FsTxn).GetInodeLocked(op, inum)
 //@   props C06 C08 C10 C11 C14
 //@   requires opOpen(op) && dirtyInv()
 //@   requires [D1-order] canLock(inum) @C06
@@ -106,7 +106,7 @@ package fstxn
 //@   assumes [I3-live] liveinum[inum] ==> result.Kind != 0
 //@   assumes [I-dir] result.Kind == 2 ==> dirShape(result)
 
-//@ spec (*FsTxn).GetInodeUnlocked
+//@ spec (*FsTxn).GetInodeUnlocked(op, inum)
 //@   props C11 C14
 //@   requires opInv(op)
 //@   requires [owned] held[inum] @C11 @C14
@@ -114,13 +114,13 @@ package fstxn
 //@   assumes [S5-cache-inode] inodeInv(result)
 //@   assumes [I-dir] result.Kind == 2 ==> dirShape(result)
 
-//@ spec (*FsTxn).OwnInum
+//@ spec (*FsTxn).OwnInum(op, inum)
 //@   props C14
 //@   requires opInv(op)
 //@   assumes [table] result <==> held[inum]
 
 // C08-H1/H5: the only ways from a number or a handle to an inode.
-//@ spec (*FsTxn).GetInodeInum
+//@ spec (*FsTxn).GetInodeInum(op, inum)
 //@   props C08 C06 C10 C11 C14
 //@   requires opOpen(op) && dirtyInv()
 //@   requires [D1-order] inum >= 32768 || canLock(inum) @C06
@@ -136,7 +136,7 @@ package fstxn
 
 //@ specfunc fhIno(fh3 nfstypes.Nfs_fh3) = ite(len(fh3.Data) >= 16, le64(fh3.Data, 0), 0)
 //@ specfunc fhGen(fh3 nfstypes.Nfs_fh3) = ite(len(fh3.Data) >= 16, le64(fh3.Data, 8), 0)
-//@ spec (*FsTxn).GetInodeFh
+//@ spec (*FsTxn).GetInodeFh(op, fh3)
 //@   props C08 C06 C10 C11 C14
 //@   requires opOpen(op) && dirtyInv()
 //@   requires [D1-order] fhIno(fh3) >= 32768 || canLock(fhIno(fh3)) @C06
@@ -147,7 +147,7 @@ package fstxn
 //@   ensures [I-live-marked] result != nil ==> abits[theIalloc][result.Inum]
 //@   ensures opInv(op) && dirtyInv()
 
-//@ spec (*FsTxn).AllocInode
+//@ spec (*FsTxn).AllocInode(op, kind)
 //@   props C08 C05 C06 C10 C11 C04
 //@   requires opOpen(op) && dirtyInv()
 //@   requires [D2-heldmarked] heldMarked() @C06
@@ -172,7 +172,7 @@ package fstxn
 // commitWait writes the bitmap bits into the same journal operation (PreCommit),
 // commits it, and only then releases the locks and frees in memory.
 //@ specfunc commitReady(op *FsTxn) = opOpen(op) && cphase == 0 && dirtyInv()
-//@ spec (*FsTxn).commitWait
+//@ spec (*FsTxn).commitWait(op, wait)
 //@   props C01 C03 C04 C05 C07 C08 C09 C10 C11
 //@   requires commitReady(op)
 //@   requires [S1-at-commit] forall i uint64 :: held[i] ==> !dirtyinum[i] @C10 @C01
@@ -185,7 +185,7 @@ package fstxn
 //@   ensures [S1-clean] dirtyInv() @C10
 //@   ensures [A3-refused-gives-back] !result ==> (forall k uint64 :: k < len(op.Atxn.allocBnums) ==> !abits[theBalloc][op.Atxn.allocBnums[k]]) && (forall k uint64 :: k < len(op.Atxn.allocInums) ==> !abits[theIalloc][op.Atxn.allocInums[k]]) @C05 @C09
 
-//@ spec (*FsTxn).Commit
+//@ spec (*FsTxn).Commit(op)
 //@   props C01 C03 C07 C09 C10
 //@   requires commitReady(op)
 //@   requires [S1-at-commit] forall i uint64 :: held[i] ==> !dirtyinum[i] @C10 @C01
@@ -195,7 +195,7 @@ package fstxn
 //@   ensures [R2-stable] (result ==> lastst == 1) && (!result ==> lastst == 4) @C01 @C07
 //@   ensures [L2-released] noLocks() && dirtyInv() @C03 @C06
 
-//@ spec (*FsTxn).CommitData
+//@ spec (*FsTxn).CommitData(op)
 //@   props C01 C07
 //@   requires commitReady(op)
 //@   requires [S1-at-commit] forall i uint64 :: held[i] ==> !dirtyinum[i] @C10 @C01
@@ -205,7 +205,7 @@ package fstxn
 //@   ensures [R2-stable] (result ==> lastst == 1) && (!result ==> lastst == 4) @C01 @C07
 //@   ensures [L2-released] noLocks() && dirtyInv() @C03 @C06
 
-//@ spec (*FsTxn).CommitUnstable
+//@ spec (*FsTxn).CommitUnstable(op)
 //@   props C01 C07
 //@   requires commitReady(op)
 //@   requires [S1-at-commit] forall i uint64 :: held[i] ==> !dirtyinum[i] @C10 @C01
@@ -217,7 +217,7 @@ package fstxn
 
 // COMMIT: the transaction itself has written nothing; everything appended to
 // the log so far is flushed (W3).
-//@ spec (*FsTxn).CommitFh
+//@ spec (*FsTxn).CommitFh(op)
 //@   props C07 C01 C03
 //@   requires commitReady(op)
 //@   requires [W3-readonly] len(op.Atxn.allocInums) == 0 && len(op.Atxn.freeInums) == 0 && len(op.Atxn.allocBnums) == 0 && len(op.Atxn.freeBnums) == 0 && (forall i uint64 :: held[i] ==> !dirtyinum[i]) && (forall i uint64 :: !wroteinum[i]) @C07
@@ -230,7 +230,7 @@ package fstxn
 
 // A1-A3 (C09): abort drops the cached copy of every inode the transaction
 // wrote, releases the locks and returns the allocations to the allocators.
-//@ spec (*FsTxn).Abort
+//@ spec (*FsTxn).Abort(op)
 //@   props C09 C03 C04 C05 C06 C08 C10
 // (aborting twice is tolerated only when the first abort had nothing to give back)
 //@   requires opInv(op) && curop == base(op) && listsValid(op.Atxn) && dirtyInv()
